@@ -54,6 +54,10 @@ class MustFx:
                     # one level of indirection: x.a.b = v  -> root of x, path a.b
                     if isinstance(t.value, ast.Attribute):
                         out.add(('write', _simple_root(f, t.value.value), f"{t.value.attr}.{t.attr}", 'store', _simple_root(f, st.value)))
+        if isinstance(st, ast.Assign):
+            for t in st.targets:
+                if isinstance(t, ast.Subscript) and isinstance(t.value, ast.Attribute):
+                    out.add(('write', _simple_root(f, t.value.value), t.value.attr, 'setitem', _simple_root(f, st.value)))
         for e in node.exprs():
             for c in walk_local(e):
                 if isinstance(c, ast.Call) and isinstance(c.func, ast.Attribute) and c.func.attr in LIST_EDITS and isinstance(c.func.value, ast.Attribute):
